@@ -455,6 +455,32 @@ func (w *World) wireObligations(prop string) []*Obligation {
 			}
 			out = append(out, ob)
 		}
+		// the Go type of a serialised field (float64 vs float32, int64 vs int32, ...) decides what a client can send and read
+		for _, f := range ws.Types {
+			name := short + "#wire.type." + f[0]
+			got, found := "", false
+			if st != nil {
+				for i := 0; i < st.NumFields(); i++ {
+					if st.Field(i).Name() == f[0] {
+						found = true
+						got = strings.ReplaceAll(types.TypeString(st.Field(i).Type(), func(p *types.Package) string {
+							if p.Path() == ws.Pkg {
+								return ""
+							}
+							return p.Name()
+						}), " ", "")
+					}
+				}
+			}
+			ob := &Obligation{Name: name, Func: short, Kind: "wire", Props: []string{prop}, Src: ws.Src, Solver: "syntactic"}
+			if found && got == f[1] {
+				ob.Goal, ob.Result = TTrue, "unsat"
+			} else {
+				ob.Goal, ob.Result = TFalse, "sat"
+				ob.Model = fmt.Sprintf("field %s of %s has Go type %s, the wire format requires %s", f[0], short, got, f[1])
+			}
+			out = append(out, ob)
+		}
 	}
 	return out
 }
